@@ -103,6 +103,9 @@ def run_rounds(ctx, bench, variant, rounds, findings, stats, tag, yield_seed=0, 
 
     try:
         for i, rd in enumerate(rounds):
+            if stats["violations"] >= 8:
+                log("%s: stopping after %d violations" % (tag, stats["violations"]))
+                break
             hostile = any(k == "hostile" for s in rd["scens"] for k in s["kinds"])
             if hostile:
                 dm = new_daemon(own=True)
@@ -277,6 +280,9 @@ def run(ctx):
 
 
 def replay(ctx, path):
+    if path.endswith(".ndjson"):
+        from props import vmd_trace
+        return vmd_trace.replay_trace(ctx, L.Bench(ctx, ("plain",)).wait(), path)
     rp = json.load(open(path))
     findings = findings_for("C18")
     variant = rp.get("variant", "plain")
